@@ -7,7 +7,7 @@
    write or retained at the last write; a late message is attributed only to the member still
    sitting at the sender's leaf with the same key.  Statements only. *)
 From Coq Require Import NArith List.
-From MlsV Require Import Storage StorageProofs.
+From MlsV Require Import Storage StorageProofs Effects ProcessEffects EffectsInst.
 Import ListNotations.
 Local Open Scope N_scope.
 
@@ -60,3 +60,16 @@ Print Assumptions C19_window_exact.
 Print Assumptions C19_repo_contiguous.
 Print Assumptions C19_available_epochs.
 Print Assumptions C19_late_sender_rule.
+
+(* the effect shape of GroupStateRepository::get_epoch_mut, extracted from state_repo.rs on every run,
+   is the one Model/Storage.v transcribes (line numbers erased) *)
+From Coq Require Import String.
+Local Open Scope string_scope.
+Theorem C19_repository_lookup_has_the_modelled_shape : shape ev_repo_get =
+  [EAlt [[EAlt [[];
+                [EAlt [[EMut "self.pending_commit.updates.get_mut().map()" 0];
+                       [EFail 0; EAlt [[EAlt [[EMut "self.pending_commit.updates.push()" 0]; []]]; []]]]]]];
+         [EAlt [[EMut "self.pending_commit.updates.get_mut().map()" 0];
+                [EFail 0; EAlt [[EAlt [[EMut "self.pending_commit.updates.push()" 0]; []]]; []]]]]]].
+Proof. exact repo_get_shape. Qed.
+Print Assumptions C19_repository_lookup_has_the_modelled_shape.
